@@ -7,6 +7,7 @@ mod c05;
 mod c07;
 mod c08;
 mod c09;
+mod c10;
 mod c11;
 mod c12;
 mod c13;
@@ -37,6 +38,7 @@ fn main() {
                 "C07" => c07::replay(cases, verd),
                 "C08" => c08::replay(cases, verd),
                 "C09" => c09::replay(cases, verd),
+                "C10" => c10::replay(cases, verd),
                 "C12" => c12::replay(cases, verd),
                 "C13" => c13::replay(cases, verd),
                 "C14" => c14::replay(cases, verd),
@@ -64,6 +66,7 @@ fn main() {
                 "C09" => { let _ = (seed, n); c09::record(&args[6], out) }
                 "C08" => c08::record(seed, n, out, args.get(6).and_then(|s| s.parse().ok()).unwrap_or(200)),
                 "C11" => c11::record(&args[6], seed, n, out),
+                "C10" => c10::record(seed, n, out),
                 "C13" => c13::record(seed, n, out),
                 "C14" => c14::record(seed, n, out),
                 "C12" => c12::record(seed, n, out, args.get(6).and_then(|s| s.parse().ok()).unwrap_or(16)),
